@@ -40,6 +40,7 @@ def cases(ctx: Ctx):
     (d / "gas.ucl").write_text(ucl_text())
     (d / "gas_nothermal.ucl").write_text("\n".join(l for l in ucl_text().splitlines() if "THERM" not in l) + "\n")
     (d / "group1.ucl").write_text(ucl_text("1"))
+    (d / "gas_hh93.ucl").write_text("\n".join(l for l in ucl_text().splitlines() if "DESOH2" not in l) + "\n")      # (hh93 has no H2-formation desorption)
     two = [rec(["H", "H2"], ["H", "H", "H"], "MA"), rec(["CO"], ["#CO"], "FREEZE"), rec(["#CO"], ["CO"], "THERM"), rec(["H2O"], ["#1H2O"], "FREEZE"),
            rec(["#1H2O"], ["H2O"], "THERM"), rec(["#1H2O"], ["H2O"], "DESCR"), rec(["#CO"], ["CO"], "DEUVCR")]
     (d / "twogroups.ucl").write_text("\n".join(encoders.uclchem(x) for x in two) + "\n")
@@ -87,6 +88,10 @@ def cases(ctx: Ctx):
                                                         ode_modifier={"H": {"factors": ["1.0e-17 * nH"], "reactants": [["H+", "E"]]}}), "cvode", "dense"),
         ("ode modifier naming the electron as E, sparse", dict(filelist=str(d / "el.naunet"), fileformats="naunet", _may_refuse=True,
                                                                 ode_modifier={"H": {"factors": ["1.0e-17 * nH"], "reactants": [["H+", "E"]]}}), "cvode", "sparse"),
+        # the Hasegawa & Herbst models under formats other than Leeds (whose symbol NAMES differ: zeta / zeta_cr, G0, zism)
+        ("uclchem+hh93", dict(filelist=str(d / "gas_hh93.ucl"), fileformats="uclchem", grain_model="hh93"), "cvode", "dense"),
+        ("uclchem+hh93i", dict(filelist=str(d / "gas_hh93.ucl"), fileformats="uclchem", grain_model="hh93i"), "cvode", "sparse"),
+        ("native grain charging+hh93", dict(filelist=[str(d / "n.naunet"), str(d / "charge.naunet")], fileformats="naunet", grain_model="hh93"), "odeint", "rosenbrock4"),
         ("uclchem + native grain charging, rr07x", dict(filelist=[str(d / "gas.ucl"), str(d / "charge.naunet")], fileformats=["uclchem", "naunet"], grain_model="rr07x"),
          "cvode", "dense"),
         ("uclchem + native grain charging, rr07", dict(filelist=[str(d / "gas_nothermal.ucl"), str(d / "charge.naunet")], fileformats=["uclchem", "naunet"],
